@@ -215,7 +215,7 @@ def fn_body(toks, name, start=0):
     while True:
         i = find_seq(toks, ["fn", name], i)
         if i < 0:
-            raise TranslateError(f"fn {name} not found")
+            raise PinMismatch(f"fn {name} not found")
         # find the opening brace of the body: first '{' at depth 0 after the signature
         j = i + 2
         depth = 0
@@ -303,4 +303,4 @@ def find_match(toks, start=0):
                         return toks[i + 1:j], toks[j + 1:k], k
                 j += 1
         i += 1
-    raise TranslateError("match not found")
+    raise PinMismatch("match not found")
